@@ -9,14 +9,15 @@ COMMON_TRUST = [
     "machine integers as mathematical integers (overflow outside the claim; counters assumed < 2^20 where arithmetic occurs)",
 ]
 
-BROKER_H = ["eventlogger/broker_state.go", "eventlogger/broker_ops.go", "eventlogger/c02.go"]
+BROKER_H = ["eventlogger/broker_state.go", "eventlogger/broker_ops.go", "eventlogger/c02.go", "eventlogger/c01_c07_c20.go"]
 
 PROPS = {
     "C02": dict(
         level="other",
         explanation="Sequential symbolic execution of Status.getError, SetSuccessThreshold[Sinks], SuccessThreshold[Sinks] from go/ssa with thresholds, lengths (<=4) and ctx error symbolic; assertions discharged by z3 (unsat of negation).",
-        jobs=[dict(harness=BROKER_H, entries=r"^H_C02_", params=dict(quick={}, thorough={}))],
-        must_reach=["C02.threshold.end", "C02.getError.end"],
+        jobs=[dict(harness=BROKER_H, entries=r"^H_C02_", params=dict(quick=dict(K=2, L=2), thorough=dict(K=3, L=3)), shards=dict(quick=1, thorough=8)),
+              dict(harness=BROKER_H, entries=r"^H_C01_process_seq$", params=dict(quick=dict(P=2, N=2), thorough=dict(P=3, N=3)), shards=dict(quick=4, thorough=16))],
+        must_reach=["C02.threshold.end", "C02.getError.end", "C02.preserved.end", "C01.process.end"],
         bounds=dict(quick="thresholds: any int; complete/completeSinks lengths 0..4", thorough="same"),
         trusted_base=COMMON_TRUST,
     ),
@@ -37,6 +38,34 @@ PROPS = {
                    shards=dict(quick=4, thorough=16, H_C06_RegisterPipeline=16))],
         must_reach=["C06.base", "C06.registerpipeline.ok", "C06.removepipeline.target", "C06.rpan.true", "C06.removenode.end", "C06.registernode.end"],
         bounds=dict(quick="K=2 node ids, pipelines/definitions up to 3 nodes", thorough="K=3 node ids, up to 4 nodes"),
+        trusted_base=COMMON_TRUST,
+    ),
+    "C07": dict(
+        level="other",
+        explanation="Inductive step of RegisterNode and RegisterPipeline over symbolic policies (allow/deny/default/arbitrary invalid strings): fails iff the existing entry says DenyOverwrite (or the request is invalid) and then changes nothing; otherwise the stored policy is the requested one; linked pipelines and same-id pipelines of other event types are untouched.",
+        jobs=[dict(harness=BROKER_H, entries=r"^H_C07_|^H_C05_RegisterPipeline$", params=dict(quick=dict(K=2, L=2), thorough=dict(K=3, L=3)),
+                   shards=dict(quick=1, thorough=16, H_C05_RegisterPipeline=16, H_C07_pipeline_other_type=8))],
+        must_reach=["C07.node.ok", "C07.node.fail", "C07.othertype.end", "C05.register.ok", "C05.register.fail"],
+        bounds=dict(quick="K=2, L=2; policy strings arbitrary", thorough="K=3, L=3"),
+        trusted_base=COMMON_TRUST,
+    ),
+    "C20": dict(
+        level="other",
+        explanation="Broker.Reopen / graph.reopen / doReopen executed symbolically from an arbitrary registry (two pipelines of one type + one pipeline of a second type, every linked node a distinct stub with symbolic Reopen outcome): no failure => nil and every node reached; any failure => non-nil; a single failure is carried (errors.Is).",
+        jobs=[dict(harness=BROKER_H, entries=r"^H_C20_", params=dict(quick=dict(K=2, L=3), thorough=dict(K=3, L=4)), shards=dict(quick=8, thorough=16))],
+        must_reach=["C20.reopen.ok", "C20.reopen.one-failure"],
+        bounds=dict(quick="2 types; pipelines of 2..3, 2 and 2 nodes", thorough="pipelines of 2..4, 2, 2 nodes"),
+        trusted_base=COMMON_TRUST,
+    ),
+    "C01": dict(
+        level="other",
+        explanation="Sequential parts: Send's lookup/event construction with graph.process replaced by a recording stub; linkNodes for all lengths 0..5; RegisterPipeline builds the list from the currently registered nodes (C05 harness); graph.process/doProcess executed with cooperative scheduling on one schedule for all outcome vectors (order, at-most-once, exact event hand-over). All-schedule reasoning: see EO jobs.",
+        jobs=[dict(harness=BROKER_H, entries=r"^H_C01_Send$", params=dict(quick=dict(K=2, L=2), thorough=dict(K=3, L=3)), shards=dict(quick=1, thorough=4),
+                   overrides=["(*github.com/hashicorp/eventlogger.graph).process=verifStubProcess"]),
+              dict(harness=BROKER_H, entries=r"^H_C01_linkNodes$", params=dict(quick=dict(LL=5), thorough=dict(LL=5))),
+              dict(harness=BROKER_H, entries=r"^H_C01_process_seq$", params=dict(quick=dict(P=2, N=2), thorough=dict(P=3, N=3)), shards=dict(quick=4, thorough=16))],
+        must_reach=["C01.send.known", "C01.send.unknown", "C01.link.ok", "C01.process.end"],
+        bounds=dict(quick="P<=2 pipelines x 2 nodes; list length<=5", thorough="P<=3 x 2..3 nodes"),
         trusted_base=COMMON_TRUST,
     ),
 }
